@@ -130,10 +130,60 @@ def rule_zero_dst(ck, facts):
             ck.bad(R, "dst|%s" % root, "%s applies the migration patches onto %s, not onto a zero-filled buffer: cells that the edit added keep whatever that buffer held instead of starting from zero (the sibling runtime uses vec![0; total_size])" % (f.short, verdict[1] if verdict else "an unknown buffer"), f.where(t))
 
 
+def _arg_leaves(e, out):
+    if isinstance(e, tuple):
+        if len(e) == 2 and e[0] == "arg" and isinstance(e[1], int):
+            out.add(e[1])
+            return
+        if e and e[0] == "unk":
+            out.add("unk:" + str(e[1]))
+            return
+        for x in e:
+            _arg_leaves(x, out)
+
+
+def rule_plan_provenance(ck, facts):
+    R = "C07.provenance"
+    ck.rule(R, "where the VM is resumed with a new program, the `old` layout given to the migration-plan builder is computed from the running machine only and the `new` layout from the new program only (no value of the other side, e.g. a function index, takes part in the look-up)")
+    lang = facts.crate(roles.LANG)
+    sites = []
+    for f in lang.fns:
+        if "::runtime::vm" not in f.path or f.kind == "promoted" or "::test" in f.path:
+            continue
+        for b, t in f.calls():
+            if (callee(t) or "").endswith("build_state_storage_patch_plan"):
+                sites.append((f, t))
+    ck.floor(R, "vm_plan_builder_call_sites", len(sites), 1)
+    for f, tt in sites:
+        sx = SymEx(f, max_paths=128, max_steps=20000, facts=facts)
+        try:
+            paths = sx.run(0, stop_at_call=lambda n, t, tt=tt: t is tt)
+        except PathLimit:
+            paths = sx.paths
+        hits = [p for p in paths if p.end == "stopcall"]
+        key = "sides|%s" % f.short.split("::")[-1]
+        if not hits or f.d.get("argc", 0) < 2:
+            ck.bad(R, "unanalysable|%s" % f.short.split("::")[-1], "cannot reach the plan-builder call of %s symbolically" % f.short, f.where(tt))
+            continue
+        bad = None
+        for p in hits:
+            a = p.events[-1][2]
+            old_l, new_l = set(), set()
+            _arg_leaves(a[0], old_l)
+            _arg_leaves(a[1], new_l)
+            if old_l != {1} or new_l != {2}:
+                bad = (sorted(map(str, old_l)), sorted(map(str, new_l)), show(a[1])[:160])
+        if bad is None:
+            ck.ok(R, key, {"old_from": "self", "new_from": "the new program"})
+        else:
+            ck.bad(R, key, "%s: the layouts handed to the migration-plan builder mix the two programs (old side reads arguments %s, new side reads arguments %s; self = 1, new program = 2; new side: %s): a look-up keyed by the other program's function index picks the wrong function's layout as soon as the edit moves `dsp` in the function table, and the state of untouched voices is dropped or mis-migrated" % (f.short, bad[0], bad[1], bad[2]), f.where(tt))
+
+
 def run(ck, facts, tier):
     rule_send(ck, facts)
     rule_layout_carried(ck, facts)
     rule_zero_dst(ck, facts)
+    rule_plan_provenance(ck, facts)
     # the plan and the layout it is computed from
     c08.rule_patch_sites(ck, facts)
     c08.rule_predicate(ck, facts)
